@@ -2,6 +2,7 @@ import ConfModel.Driver.Common
 import ConfModel.Driver.OSCmd
 import ConfModel.Model.Run
 import ConfModel.Model.ClientPipe
+import ConfModel.Model.Cli
 import ConfModel.Spec.ClientRunner
 import ConfModel.Spec.Glob
 namespace ConfModel.Driver.C05
@@ -188,7 +189,7 @@ def handle : Handler := fun op inp impl =>
     { agree := holds && refOK, holds := holds, nontrivial := raw || tls, cls := "fill",
       why := if holds then "" else "request not filled in as required (test name in request headers / raw request headers, host, port, certificate): " ++ (field impl "reqs").compress }
   | "handshake" => judgeHandshake inp impl
-  | "run" | "fate" =>
+  | "run" | "fate" | "cli" =>
     if !(isNull (field impl "panic")) then
       { agree := false, holds := false, why := "panic: " ++ str (field impl "panic") } else
     if str (field impl "loadErr") != "" then
@@ -197,7 +198,28 @@ def handle : Handler := fun op inp impl =>
     let beh := str (field inp "behaviour")
     let run := (strList (field inp "run")).map split
     let skip := (strList (field inp "skip")).map split
-    let maxS := nat (field inp "maxServers")
+    -- op cli: the command line's own decisions (`Cli.run`, the model `port_implies_single_server` /
+    -- `both_commands` are about): the effective number of servers, or a refusal
+    let isCli := op == "cli"
+    let cli := field inp "cli"
+    let withPort := isCli && bool (field cli "port")
+    let msGiven := str (field cli "maxServers") != "default"
+    let cliArgs : ConfModel.Cli.Args :=
+      { mode := if mode == "both" then "both" else "client",
+        command := if mode == "both" then ["client", "----", "server"] else ["client"],
+        maxServers := if msGiven then nat (field inp "maxServers") else 4, maxServersGiven := msGiven,
+        port := if withPort then 1 else 0, portGiven := withPort, bindGiven := mode != "both" }
+    let cliOut := ConfModel.Cli.run cliArgs
+    if isCli && bool (field impl "portTaken") then
+      { agree := true, holds := true, nontrivial := false, cls := "set-aside:port-taken-by-another-process" } else
+    match (if isCli then (match cliOut with | .proceed p => some p.maxServers | _ => none) else some (nat (field inp "maxServers"))) with
+    | none =>
+      -- refused by the command line: status 1, nothing started, nothing handed out
+      let quiet := (arr (field impl "requests")).isEmpty && (arr (field impl "servers")).isEmpty
+      let ok := bool (field impl "returned") && nat (field impl "exitCode") == 1 && quiet
+      { agree := ok, holds := ok, nontrivial := true, cls := "cli:refused",
+        why := if ok then "" else s!"the command line must be refused (--port with an explicit --max-servers > 1), yet: exit status {int (field impl "exitCode")}, requests handed out {(arr (field impl "requests")).length}, servers started {(arr (field impl "servers")).length}" }
+    | some maxS =>
     let perms : List (Perm × Json) := (arr (field impl "perms")).map (fun p =>
       (⟨split (str (field p "name")), ⟨nat (field p "proto"), nat (field p "ver"), bool (field p "tls"), bool (field p "certs")⟩⟩, p))
     let names := perms.map (·.1.name)
@@ -247,7 +269,28 @@ def handle : Handler := fun op inp impl =>
       if contains r.name "(grpc server impl)" || contains r.name "(grpc client impl)" || contains r.name "(grpc impl)" then
         r.proto != 1 && (if r.proto == 3 then (r.ver == 1 || r.ver == 2) else r.ver == 2) && r.codec == 1 && (r.comp == 1 || r.comp == 2) && !r.hasCert
       else true)
-    let holds := once && hdrOK && addrOK && boundOK && stoppedOK && retOK && returned && grpcOK
+    -- (6) … under their marked names: the model derives the names of the gRPC-peer permutations from
+    -- the library itself (full name, the test's own name): the marker is one more path component
+    -- immediately before the ENDING of the full name that is the simple name (`markName`)
+    let base := (arr (field impl "base")).map (fun p =>
+      (split (str (field p "name")), split (str (field p "simple")),
+       (⟨nat (field p "proto"), nat (field p "ver"), bool (field p "tls"), bool (field p "certs")⟩ : Inst),
+       nat (field p "codec"), nat (field p "comp"), bool (field p "rawResp")))
+    let serverGRPC := mode != "both"
+    let mMarked : List (List String × Inst) := if !serverGRPC then [] else
+      (base.filter (fun b => grpcServerTakes b.2.2.1 b.2.2.2.1 b.2.2.2.2.1 b.2.2.2.2.2)).map (fun b => (markName b.1 b.2.1 grpcServerMarker, b.2.2.1))
+    let mAll := sortStrings ((base.map (·.1) ++ mMarked.map (·.1)).map ("/".intercalate ·))
+    let namesAgree := mAll == sortStrings (names.map ("/".intercalate ·))
+    let marked (n : String) : Bool := contains n "(grpc server impl)" || contains n "(grpc client impl)" || contains n "(grpc impls)"
+    let markOK := reqs.all (fun r => !marked r.name ||
+      mMarked.any (fun q => "/".intercalate q.1 == r.name && q.2.proto == r.proto && q.2.ver == r.ver))
+    -- (7) op cli with --port P: every request is addressed to port P, where a server is listening at
+    -- that moment (the recording client dials it): the servers of all instances follow one another on P
+    let fixedPort := nat (field impl "fixedPort")
+    let probes := (arr (field impl "requests")).map (fun r => str (field r "probe"))
+    let portOK := !withPort || (reqs.all (fun r => r.port == fixedPort) && probes.all (· != "dead"))
+    let cliOK := !isCli || int (field impl "exitCode") == 0 || int (field impl "exitCode") == 1
+    let holds := once && hdrOK && addrOK && boundOK && stoppedOK && retOK && returned && grpcOK && markOK && portOK && cliOK
     -- the model's plan: batches per instance
     let insts := (perms.map (·.1.inst)).eraseDups
     let pl := if v == .ok then plan (perms.map (·.1)) run skip insts else []
@@ -272,9 +315,9 @@ def handle : Handler := fun op inp impl =>
     let afterExit := ClientPipe.run ClientPipe.code (ClientPipe.init ClientPipe.code 2) [.wHand, .pExit]
     let pipeOK := !gone || ClientPipe.senderOut (ClientPipe.settle ClientPipe.code afterExit (ClientPipe.mu afterExit))
     let dispAgree := maxS == 0 || (returned == (final.disp == .returned && pipeOK) && aliveAtRet.length == aliveCount final.threads)
-    { agree := (if serverOK && !broke then sentNames == planNames else true) && batchesAgree && dispAgree && (selected.map (·.name) |>.map ("/".intercalate ·) |> sortStrings) == wantNames,
+    { agree := namesAgree && (if serverOK && !broke then sentNames == planNames else true) && batchesAgree && dispAgree && (selected.map (·.name) |>.map ("/".intercalate ·) |> sortStrings) == wantNames,
       holds := holds, nontrivial := reqs.length > 1 && wantNames.length < names.length || srvs.length > 1,
-      cls := mode ++ ":" ++ beh ++ (if str (field inp "clientStopHow") != "" then ":client-" ++ str (field inp "clientStopHow") else ""),
+      cls := (if isCli then "cli:" ++ str (field cli "maxServers") ++ (if withPort then ":port:" else ":") else "") ++ mode ++ ":" ++ beh ++ (if str (field inp "clientStopHow") != "" then ":client-" ++ str (field inp "clientStopHow") else ""),
       model := Json.mkObj [("selected", wantNames.length), ("batches", pl.length), ("maxAlive", alive)],
       why := if holds then "" else
         (if !once then s!"selected permutations not handed out exactly once: sent {sentNames.length} want {wantNames.length}; " else "") ++
@@ -284,7 +327,10 @@ def handle : Handler := fun op inp impl =>
         (if !stoppedOK then "a started server was not stopped; " else "") ++
         (if !retOK then s!"{aliveAtRet.length} started server process(es) still running when Run returned (pids {aliveAtRet}); " else "") ++
         (if !returned then "run did not terminate; " else "") ++
-        (if !grpcOK then "gRPC-peer permutation issued for an unsupported case; " else "") }
+        (if !grpcOK then "gRPC-peer permutation issued for an unsupported case; " else "") ++
+        (if !portOK then s!"--port {fixedPort}: a request was addressed to another port, or nobody was listening on the port when the request was handed out (ports {(reqs.map (·.port)).eraseDups}, probes {probes.eraseDups}); " else "") ++
+        (if !cliOK then s!"the command ended with status {int (field impl "exitCode")}: {str (field impl "stderr")}; " else "") ++
+        (if !markOK then s!"gRPC-peer permutation handed out under a name that is not its marked name (marker immediately before the test's own name at the end of the full name): {(reqs.filter (fun r => marked r.name && !mMarked.any (fun q => "/".intercalate q.1 == r.name))).map (·.name) |>.take 3}; " else "") }
   | _ => bad ("unknown op " ++ op)
 
 end ConfModel.Driver.C05
